@@ -221,7 +221,7 @@ pub fn run(args: &Args) -> Report {
         return replay(p);
     }
     let mut rep = Report::new("model_checking");
-    let m: u32 = args.tier.pick(8, 11);
+    let m: u32 = args.tier.pick(9, 14);
     let bases: Vec<u64> = vec![0, (1u64 << 32) - (m as u64) / 2, u64::MAX - m as u64];
     let mut st = Stats { states: 0, transitions: 0, queries: 0, nontrivial: 0 };
     let mut samples = vec![];
